@@ -105,9 +105,20 @@ CLAIMS.update({
           'required) or enforced by the function\'s own assert.'),
 })
 
+CLAIMS.update({
+ 'C10': dict(engine='Rounding', text=(
+     'For every statically known source context C of the enumeration the program `with C: y = fp.round(x); return y` is built from '
+     'text; every prefix of the documented chain monomorphize -> unfold_special -> unfold_overflow (early_check F/T) -> unfold_neg_zero '
+     '-> float_to_fixed -> rescale_fixed -> simplify, every single rewrite, elim_round and insert_round is applied by the real strategy; '
+     'the real lowered Function is run on every quarter-gap operand and special of C and TLC judges each result against '
+     'Rounding!Expect(C, x), the declarative rounding oracle certified by MCRounding. Refusals are recorded, never judged.'),
+     note='The lowered programs are evaluated by the real interpreter (they use constructors the abstract machine does not model); '
+          'the oracle is the specification\'s. Contexts are a seeded slice of the C01 enumeration (1/40 quick, 1/4 thorough).'),
+})
+
 ENGINES = [
  ('Num', 'spec/Num.tla', ['C01', 'C02', 'C05', 'C16', 'C17'], 'exact rational / special-value numbers'),
- ('Rounding', 'spec/Rounding.tla', ['C01', 'C02', 'C16', 'C17'], 'context families, core formats, rounding function, expectations'),
+ ('Rounding', 'spec/Rounding.tla', ['C01', 'C02', 'C10', 'C16', 'C17'], 'context families, core formats, rounding function, expectations'),
  ('MCRounding', 'spec/MCRounding.tla', ['C01'], 'design-level model of RealFloat._round_at'),
  ('Arith', 'spec/Arith.tla', ['C02', 'C05'], 'exact arithmetic with IEEE specials'),
  ('MCReRound', 'spec/MCReRound.tla', ['C02'], 'round-to-odd re-rounding lemma'),
